@@ -237,6 +237,36 @@ API_PRELUDE = """
         #[bits(6..=7)]
         e3: AE,
     }
+    /// non-exhaustive enum for access matrix
+    #[bitenum(u3, exhaustive = false)]
+    pub enum AO {
+        /// a
+        A = 1,
+        /// b
+        B = 6,
+    }
+    /// Option<enum>-typed access matrix (scalar and array)
+    #[bitfield(u32, default = 0)]
+    pub struct AccO {
+        /// r
+        #[bits(0..=2, r)]
+        o0: Option<AO>,
+        /// w
+        #[bits(4..=6, w)]
+        o1: Option<AO>,
+        /// rw
+        #[bits(8..=10, rw)]
+        o2: Option<AO>,
+        /// none
+        #[bits(12..=14)]
+        o3: Option<AO>,
+        /// array w
+        #[bits(16..=18, w, stride = 4)]
+        p1: [Option<AO>; 2],
+        /// array none
+        #[bits(24..=26, stride = 4)]
+        p3: [Option<AO>; 2],
+    }
     /// complete builder, three fields
     #[bitfield(u8)]
     pub struct B3 {
@@ -333,6 +363,13 @@ def api_cases():
     c.append(("C17", "w enum field has no getter", "let _ = AccE::DEFAULT.e1();", "let _ = AccE::DEFAULT.e0();"))
     c.append(("C17", "unspecified enum field has no getter", "let _ = AccE::DEFAULT.e3();", "let _ = AccE::DEFAULT.e2();"))
     c.append(("C17", "unspecified enum field has no set_", "let mut s = AccE::DEFAULT; s.set_e3(AE::A);", "let mut s = AccE::DEFAULT; s.set_e1(AE::A);"))
+    c.append(("C17", "w Option<enum> field has no getter", "let _ = AccO::DEFAULT.o1();", "let _ = AccO::DEFAULT.o2();"))
+    c.append(("C17", "unspecified Option<enum> field has no getter", "let _ = AccO::DEFAULT.o3();", "let _ = AccO::DEFAULT.o0();"))
+    c.append(("C17", "r Option<enum> field has no with_", "let _ = AccO::DEFAULT.with_o0(AO::A);", "let _ = AccO::DEFAULT.with_o1(AO::A);"))
+    c.append(("C17", "unspecified Option<enum> field has no set_", "let mut s = AccO::DEFAULT; s.set_o3(AO::A);", "let mut s = AccO::DEFAULT; s.set_o2(AO::A);"))
+    c.append(("C17", "w Option<enum> array has no getter", "let _ = AccO::DEFAULT.p1(0);", "let _ = AccO::DEFAULT.with_p1(0, AO::B);"))
+    c.append(("C17", "unspecified Option<enum> array has no getter", "let _ = AccO::DEFAULT.p3(0);", "let _ = AccO::DEFAULT.o0();"))
+    c.append(("C17", "unspecified Option<enum> array has no with_", "let _ = AccO::DEFAULT.with_p3(0, AO::B);", "let _ = AccO::DEFAULT.with_p1(1, AO::B);"))
     c.append(("C17", "r field gets no builder step", "let _ = BD::builder().with_ro(arbitrary_int::u4::new(1));", "let _ = BD::builder().with_a(arbitrary_int::u4::new(1));"))
     # C14: incomplete chains
     full = "B3::builder().with_a(%s).with_b(%s).with_c([true, false, true]).build()" % (U2, U3)
